@@ -91,6 +91,8 @@ def float_close(a, b, rel, abs_):
     if x == y:
         return True  # +0 / -0
     import math
+    if math.isinf(rel):
+        return True
     if math.isinf(x) or math.isinf(y):
         return False
     return abs(x - y) <= rel * max(abs(x), abs(y)) + abs_
